@@ -1,16 +1,27 @@
 package c14
 
 import (
+	"os"
 	"testing"
 
 	"qrynverif/evid"
 )
+
+// TestOneShot is the one-shot translator of sub-check "retranslate" (see oneshot.go): it only
+// runs in a child process started with the request in the environment.
+func TestOneShot(t *testing.T) {
+	if os.Getenv(oneShotEnv) == "" {
+		t.Skip("only used as a child process")
+	}
+	oneShotMain()
+}
 
 func TestProp(t *testing.T) {
 	r := evid.New(t, "C14", evid.Config{
 		Level: "exploration",
 		Rule:  "generated LogQL / TraceQL / profile queries; retranslate: a query translated >= 2 times with another query translated in between; portions: the per-portion TraceQL schedule with >= 3 portions and cached trace ids on a later portion; reexec: >= 2 executions of one plan whose query has a stage with mutable planner state (regex line filter, by/without, labels-cache user, TraceQL condition/aggregator)",
 		Assumptions: []string{
+			"a fresh process (the test binary re-executed as a one-shot translator) renders the reference SQL of a query; 1 in 12 requests (quick) / 1 in 24 (thorough) are cross-checked, chosen by hash of the request",
 			"the statement of a fresh plan with the same parameters stands for 'the first execution with these time bounds' (fresh translations are deterministic: sub-check retranslate)",
 			"chsim executes the statements as ClickHouse would (only used when the re-executed text differs)",
 		},
